@@ -30,7 +30,12 @@ func caseGen() *rapid.Generator[Case] {
 		default:
 			s = gen.StringOf(gen.TokWidth, 0, 8).Draw(t, "s")
 		}
-		return Case{S: gen.Str(s), Wrap: rapid.SampledFrom(wraps).Draw(t, "wrap")}
+		c := Case{S: gen.Str(s), Wrap: rapid.SampledFrom(wraps).Draw(t, "wrap")}
+		if rapid.IntRange(0, 2).Draw(t, "mutate?") == 0 {
+			to := gen.Str(gen.StringOf(gen.TokWidth, 0, 3).Draw(t, "to"))
+			c.To = &to
+		}
+		return c
 	})
 }
 
